@@ -133,13 +133,49 @@ theorem takeSnapshot_lift (c : Cfg) (m : Nat) (pre : List Obs) (s : State) :
       simp only [h, h', if_false]
       split <;> rfl
 
+theorem dropStale_lift (m rcvd : Nat) (l : List (Nat × Nat)) :
+    dropStale (rcvd + m) (l.map (liftSnapE m)) = (dropStale rcvd l).map (liftSnapE m) := by
+  induction l with
+  | nil => rfl
+  | cons e r ih =>
+    simp only [List.map_cons, dropStale, liftSnapE]
+    by_cases h : e.1 + 1 < rcvd
+    · have h' : e.1 + m + 1 < rcvd + m := by omega
+      simp only [h, h', if_true]
+      exact ih
+    · have h' : ¬ e.1 + m + 1 < rcvd + m := by omega
+      simp only [h, h', if_false, List.map_cons, liftSnapE]
+
+theorem snapshotDue_lift (c : Cfg) (m : Nat) (pre : List Obs) (s : State) :
+    snapshotDue c (lift m pre s) = (lift m pre (snapshotDue c s).1, (snapshotDue c s).2) := by
+  unfold snapshotDue
+  split
+  · rfl
+  · have e1 : (lift m pre s).rcvdIdx = s.rcvdIdx + m := rfl
+    have e2 : (lift m pre s).mainSnaps = s.mainSnaps.map (liftSnapE m) := rfl
+    simp only [e1, e2, dropStale_lift]
+    cases dropStale s.rcvdIdx s.mainSnaps with
+    | nil => rfl
+    | cons e r =>
+      simp only [List.map_cons, liftSnapE]
+      by_cases h : e.1 + 1 = s.rcvdIdx
+      · have h' : e.1 + m + 1 = s.rcvdIdx + m := by omega
+        simp only [h, h', decide_true]
+        rfl
+      · have h' : ¬ e.1 + m + 1 = s.rcvdIdx + m := by omega
+        simp only [h, h', decide_false]
+        rfl
+
 /-- `yieldItem` after its first assignment. -/
 def yieldCore (c : Cfg) (s : State) (b : Nat) : State × Obs :=
-  if c.interval ≠ 0 ∧ (s.numYielded + 1) % c.interval = 0 then
-    match takeSnapshot c s with
-    | some s' => ({ s' with numYielded := s'.numYielded + 1 }, .item b)
-    | none => ({ s with mainSnaps := (popSnaps s.rcvdIdx s.mainSnaps none).2 }, .assertion)
-  else ({ s with numYielded := s.numYielded + 1 }, .item b)
+  if c.interval = 0 then ({ s with numYielded := s.numYielded + 1 }, .item b)
+  else
+    let d := snapshotDue c s
+    if d.2 then
+      match takeSnapshot c d.1 with
+      | some s' => ({ s' with numYielded := s'.numYielded + 1 }, .item b)
+      | none => ({ d.1 with mainSnaps := (popSnaps d.1.rcvdIdx d.1.mainSnaps none).2 }, .assertion)
+    else ({ d.1 with numYielded := d.1.numYielded + 1 }, .item b)
 
 theorem yieldItem_eq (c : Cfg) (s : State) (r : Res) (b : Nat) :
     yieldItem c s r b = yieldCore c { s with lastW := r.w, wsnaps := applyDelta s.wsnaps r.w r.st } b := rfl
@@ -147,21 +183,26 @@ theorem yieldItem_eq (c : Cfg) (s : State) (r : Res) (b : Nat) :
 theorem yieldCore_lift (c : Cfg) (m : Nat) (pre : List Obs) (s : State) (b : Nat) :
     yieldCore c (lift m pre s) b = (lift m pre (yieldCore c s b).1, (yieldCore c s b).2) := by
   unfold yieldCore
-  have e1 : (lift m pre s).numYielded = s.numYielded := rfl
-  rw [e1]
   split
-  · rw [takeSnapshot_lift]
-    cases takeSnapshot c s with
-    | some s' => rfl
-    | none =>
-      simp only [Option.map_none]
-      have hp := popSnaps_lift m s.rcvdIdx s.mainSnaps none
-      simp only [Option.map_none] at hp
-      have e2 : (lift m pre s).rcvdIdx = s.rcvdIdx + m := rfl
-      have e3 : (lift m pre s).mainSnaps = s.mainSnaps.map (liftSnapE m) := rfl
-      rw [e2, e3, hp]
-      rfl
   · rfl
+  · dsimp only
+    rw [snapshotDue_lift]
+    generalize snapshotDue c s = d
+    obtain ⟨d1, d2⟩ := d
+    cases d2
+    · rfl
+    · simp only [if_true]
+      rw [takeSnapshot_lift]
+      cases takeSnapshot c d1 with
+      | some s' => rfl
+      | none =>
+        simp only [Option.map_none]
+        have hp := popSnaps_lift m d1.rcvdIdx d1.mainSnaps none
+        simp only [Option.map_none] at hp
+        have e2 : (lift m pre d1).rcvdIdx = d1.rcvdIdx + m := rfl
+        have e3 : (lift m pre d1).mainSnaps = d1.mainSnaps.map (liftSnapE m) := rfl
+        rw [e2, e3, hp]
+        rfl
 
 theorem yieldItem_lift (c : Cfg) (m : Nat) (pre : List Obs) (s : State) (r : Res) (b : Nat) :
     yieldItem c (lift m pre s) (liftRes m r) b = (lift m pre (yieldItem c s r b).1, (yieldItem c s r b).2) := by
